@@ -512,7 +512,19 @@ def _known_not_none(x):
         return not _isnone(x)      # arithmetic combination
     if at.kind == 'sym':
         return at.args[0] in NOTNONE
+    if at.kind == 'call' and at.args[0] in NUMERIC_RESULT:
+        return True            # numpy constructors / elementwise functions return arrays or numbers, never None
+    if at.kind == 'sub':
+        ba = at.args[0].single_atom()
+        if ba is not None and ba.kind == 'call' and ba.args[0] in NUMERIC_RESULT:
+            return True        # an item / slice of such a result
     return at.kind in ('str', 'tuple', 'list', 'dict', 'closure', 'new', 'bool', 'seq', 'func', 'class')
+
+
+NUMERIC_RESULT = {'meshgrid', 'zeros', 'ones', 'full', 'empty', 'linspace', 'arange', 'array', 'diff', 'reshape', 'repeat',
+                  'concatenate', 'append', 'abs', 'sqrt', 'exp', 'log', 'cos', 'sin', 'round', 'floor', 'ceil', 'mean', 'sum',
+                  'std', 'cumsum', 'len', 'int', 'float', 'astype', 'real', 'imag', 'maximum', 'minimum', 'clip', 'where',
+                  'tile', 'flip', 'transpose', 'fft', 'fftshift', 'rfft', 'frombuffer', 'copy'}
 
 
 def truthy(t):
@@ -794,10 +806,35 @@ def mk_call(fn, args=(), kwargs=()):
     if fn == 'float' and len(args) == 1 and not kwargs and _numeric_like(args[0]) and \
             not any(a.kind == 'sub' for a in args[0].atoms()):
         return args[0]
+    if fn in ('zip', 'enumerate') and args and not kwargs:
+        ats = [a.single_atom() for a in args]
+        if fn == 'zip' and all(a is not None and a.kind in ('list', 'tuple') for a in ats):
+            n = min(len(a.args) for a in ats)
+            return mk_tuple([mk_tuple([a.args[i] for a in ats]) for i in range(n)], 'list')
+        if fn == 'enumerate' and len(args) == 1 and ats[0] is not None and ats[0].kind in ('list', 'tuple'):
+            return mk_tuple([mk_tuple([Term.num(i), x]) for i, x in enumerate(ats[0].args)], 'list')
+        for a in ats:
+            # zip(A if c else B, ...) == zip(A, ...) if c else zip(B, ...)   (literal arms: the result is a literal)
+            if a is not None and a.kind == 'ite' and all(
+                    x.single_atom() is not None and x.single_atom().kind in ('list', 'tuple') for x in a.args[1:]):
+                c = a.args[0]
+                ca = c.single_atom()
+                if ca is None or ca.kind != 'and':
+                    return mk_ite(c, mk_call(fn, [assume(x, {c.key: True}) for x in args]),
+                                  mk_call(fn, [assume(x, {c.key: False}) for x in args]))
     if fn == 'len' and len(args) == 1:
         at = args[0].single_atom()
         if at is not None and at.kind in ('tuple', 'list'):
             return Term.num(len(at.args))
+        if at is not None and at.kind == 'call' and at.args[0] in ('zeros', 'ones', 'empty', 'full'):
+            # len(np.zeros((n, m))) == n
+            shp = at.args[1][0] if at.args[1] else dict(at.args[2]).get('shape')
+            if shp is not None:
+                sa = shp.single_atom()
+                if sa is not None and sa.kind == 'tuple' and sa.args:
+                    return sa.args[0]
+                if sa is None or sa.kind not in ('tuple', 'list', 'attr', 'call', 'sub', 'sym', 'ite'):
+                    return shp
     return Term.of(Atom('call', fn, tuple(args), kwargs))
 
 
@@ -857,6 +894,22 @@ def mk_sub(base, idx):
             c = idx.const()
             if c is not None and c.denominator == 1 and -len(at.args) <= c < len(at.args):
                 return at.args[int(c)]
+        if at.kind in ('tuple', 'list'):
+            # a constant slice of a literal sequence is the literal sub-sequence
+            sl = idx.single_atom()
+            if sl is not None and sl.kind == 'slice':
+                parts = []
+                for x in sl.args:
+                    if _isnone(x):
+                        parts.append(None)
+                    else:
+                        cx = x.const()
+                        if cx is None or cx.denominator != 1:
+                            parts = None
+                            break
+                        parts.append(int(cx))
+                if parts is not None:
+                    return mk_tuple(list(at.args)[slice(*parts)], at.kind)
         if at.kind == 'store':
             b, i, v = at.args
             if i.key == idx.key:
